@@ -585,6 +585,79 @@ pub fn parse_units(m: &[u8]) -> Vec<UnitHdr> {
     out
 }
 
+/// The same small tree built three ways - with the `Root!` / `Branch!` / `Leaf!` macros, with the
+/// `Node::root / branch / default_branch / leaf / default_leaf` constructors, and as a `TreeSpec` for
+/// the reference resolver - and every one- and two-unit message over a header list run on both.
+fn api_built_trees(ctx: &Ctx, base: u64) -> u64 {
+    use crate::rig::{RigDev, HANDLERS};
+    use scpi::tree::Node;
+    use scpi::{Branch, Leaf, Root};
+    let spec = TreeSpec::root(vec![
+        TreeSpec::leaf("*CM", 9),
+        TreeSpec::branch("ALPHa", vec![TreeSpec::dleaf("BETa", 0), TreeSpec::leaf("GAMMa", 1)]),
+        TreeSpec::dbranch("DEF", vec![TreeSpec::leaf("IN", 2)]),
+        TreeSpec::branch("ANON", vec![TreeSpec::dleaf("", 3), TreeSpec::leaf("X", 4)]),
+    ]);
+    let by_macro: Node<RigDev> = Root![
+        Leaf!(b"*CM" => &HANDLERS[9]),
+        Branch!(b"ALPHa"; Leaf!(default b"BETa" => &HANDLERS[0]), Leaf!(b"GAMMa" => &HANDLERS[1])),
+        Branch!(default b"DEF"; Leaf!(b"IN" => &HANDLERS[2])),
+        Branch!(b"ANON" => &HANDLERS[3]; Leaf!(b"X" => &HANDLERS[4]))
+    ];
+    let alph = [Node::default_leaf(b"BETa", &HANDLERS[0]), Node::leaf(b"GAMMa", &HANDLERS[1])];
+    let def = [Node::leaf(b"IN", &HANDLERS[2])];
+    let anon = [Node::default_leaf(b"", &HANDLERS[3]), Node::leaf(b"X", &HANDLERS[4])];
+    let top = [Node::leaf(b"*CM", &HANDLERS[9]), Node::branch(b"ALPHa", &alph), Node::default_branch(b"DEF", &def), Node::branch(b"ANON", &anon)];
+    let by_fn: Node<RigDev> = Node::root(&top);
+    let texts = ["*CM", "ALPH", "ALPH:BET", "ALPH:GAMM", "IN", "DEF:IN", "DEF", "ANON", "ANON:X", "X", "GAMM", ":ALPH:GAMM", "BET", ":IN", ":DEF:IN", "ALPHA:BETA"];
+    let parse = |t: &str, query: bool| -> UnitHdr {
+        if t.starts_with('*') {
+            UnitHdr { hdr: Hdr::Common(t.as_bytes().to_vec()), query }
+        } else {
+            let leading_colon = t.starts_with(':');
+            let body = t.trim_start_matches(':');
+            UnitHdr { hdr: Hdr::Compound { leading_colon, path: body.split(':').map(|m| m.as_bytes().to_vec()).collect() }, query }
+        }
+    };
+    let mut units = vec![];
+    for t in texts {
+        for q in [false, true] {
+            units.push(parse(t, q));
+        }
+    }
+    let mut msgs: Vec<Vec<UnitHdr>> = units.iter().map(|u| vec![u.clone()]).collect();
+    for a in &units {
+        for b in &units {
+            msgs.push(vec![a.clone(), b.clone()]);
+        }
+    }
+    let mut n = 0u64;
+    for (mi, m) in msgs.iter().enumerate() {
+        let want = run_message(&spec, m);
+        let text = message_text(m);
+        for (how, tree) in [("Root!/Branch!/Leaf! macros", &by_macro), ("Node::root/branch/leaf constructors", &by_fn)] {
+            n += 1;
+            let mut dev = RigDev::new();
+            dev.reset_obs(&text);
+            let mut out: Vec<u8> = Vec::new();
+            let mut c = scpi::tree::prelude::Context::default();
+            let r = match guarded(|| tree.run(&text, &mut dev, &mut c, &mut out)) {
+                Ok(r) => r,
+                Err(p) => {
+                    ctx.violation(base + mi as u64, "panic", &format!("tree built with {how}: `{}` panicked: {p}", esc(&text)), json!({"kind": "api-tree", "message": esc(&text)}));
+                    continue;
+                }
+            };
+            let calls: Vec<(u8, bool)> = dev.calls.iter().map(|c| (c.handler, c.form == crate::rig::Form::Query)).collect();
+            let err = r.err().map(|e| e.get_code());
+            if calls != want.calls || err != want.error {
+                ctx.violation(base + mi as u64, "api-built-tree", &format!("tree {} built with {how}: `{}` invoked {:?} and returned {:?}; SCPI designates {:?} / {:?}", spec.render(), esc(&text), calls, err, want.calls, want.error), json!({"kind": "api-tree", "message": esc(&text)}));
+            }
+        }
+    }
+    n
+}
+
 pub fn run(ctx: &'static Ctx) -> i32 {
     if let Err(e) = csv_self_check() {
         engine_failure(&e);
@@ -624,6 +697,8 @@ pub fn run(ctx: &'static Ctx) -> i32 {
             }
         }
     }
+    let api_runs = api_built_trees(ctx, ntrees + 1);
+    tot.runs += api_runs;
     if tot.samples.is_empty() {
         tot.samples.push(json!({"tree": trees[0].render()}));
     }
@@ -632,6 +707,7 @@ pub fn run(ctx: &'static Ctx) -> i32 {
     c.insert("transitions".into(), json!(tot.transitions));
     c.insert("traces_validated_against_impl".into(), json!(tot.runs));
     c.insert("evaluations".into(), json!(tot.runs));
+    c.insert("runs_on_trees_built_with_macros_and_constructors".into(), json!(api_runs));
     c.insert("distinct_nontrivial".into(), json!(tot.nontrivial));
     c.insert("distinct_outcomes".into(), json!(tot.outcomes.len()));
     c.insert("trees".into(), json!(ntrees));
@@ -657,6 +733,11 @@ fn count_nodes(t: &TreeSpec) -> usize {
 }
 
 pub fn replay(case: &Value) -> Result<String, String> {
+    if case["kind"] == "api-tree" {
+        let ctx2: &'static Ctx = Box::leak(Box::new(Ctx::new("C02", Tier::Quick)));
+        api_built_trees(ctx2, 0);
+        return if ctx2.violation_count() > 0 { Err("api-built-tree: a tree built with the macros / constructors still resolves differently".into()) } else { Ok("trees built with macros and constructors resolve as designated".into()) };
+    }
     let spec = TreeSpec::from_json(&case["tree"]).unwrap_or_else(|| engine_failure("bad C02 replay tree"));
     let tree = spec.build();
     let mut dev = RigDev::new();
